@@ -122,6 +122,8 @@ def vipow(x, y):
 
 
 def _vint(x=0, *a):
+    if isinstance(x, str) and symio.is_token(x):
+        return _vint(symio.resolve_token(x))
     if isinstance(x, Sx):
         f = x.as_fraction()
         if f is not None:
@@ -142,6 +144,8 @@ def _vfloat(x=0):
     if isinstance(x, int):
         return Fraction(x)
     if isinstance(x, str):
+        if symio.is_token(x):
+            return _vfloat(symio.resolve_token(x))
         try:
             return Fraction(x)
         except ValueError:
@@ -273,7 +277,7 @@ def symbolic_helpers():
         '__vf__': vf, '__vc__': vc, '__vdiv__': vdiv, '__vpow__': vpow, '__vidiv__': vidiv, '__vipow__': vipow,
         '__vint__': vint, '__vfloat__': vfloat, '__vround__': vround, '__vcomplex__': vcomplex,
         '__visinstance__': visinstance, '__vmath__': _VMath(), '__vtruenp__': symnp,
-        '__vspecial__': symspecial, '__vgetitem__': __import__('operator').getitem, '__vopen__': symio.vopen,
+        '__vspecial__': symspecial, '__vgetitem__': __import__('operator').getitem, '__vopen__': symio.vopen, '__vPath__': symio.VPath,
     }
 
 
